@@ -8,12 +8,15 @@ import (
 	"os"
 	"os/exec"
 	"path/filepath"
+	"regexp"
 	"strings"
 	"sync"
 	"time"
 
 	"verif/sym"
 )
+
+var osImportRe = regexp.MustCompile(`(?m)^(\s*(?:import\s+)?)"os"\s*$`)
 
 var (
 	scratchOnce sync.Once
@@ -108,6 +111,27 @@ func main() {
 		}
 		return nil
 	})
+	for _, sp := range h.OSSwap {
+		pdir := filepath.Join(repoDir, sp)
+		ents, _ := os.ReadDir(pdir)
+		for _, e := range ents {
+			n := e.Name()
+			if e.IsDir() || !strings.HasSuffix(n, ".go") || strings.HasSuffix(n, "_test.go") {
+				continue
+			}
+			src, err := os.ReadFile(filepath.Join(pdir, n))
+			if err != nil {
+				continue
+			}
+			swapped := osImportRe.ReplaceAll(src, []byte(`${1}os "`+sym.RepoModule+`/app/verifrt/vos"`))
+			if bytes.Equal(swapped, src) {
+				continue
+			}
+			f := filepath.Join(dir, "osswap_"+h.Func+"_"+strings.ReplaceAll(sp, "/", "_")+"_"+n)
+			os.WriteFile(f, swapped, 0o644)
+			replace[filepath.Join(pdir, n)] = f
+		}
+	}
 	ovb, _ := json.Marshal(map[string]any{"Replace": replace})
 	ovFile := filepath.Join(dir, "overlay_"+h.Func+".json")
 	os.WriteFile(ovFile, ovb, 0o644)
@@ -129,14 +153,14 @@ func main() {
 }
 
 type nativeResult struct {
-	Failed   []string `json:"failed"`
-	Covered  []string `json:"covered"`
-	Observed []string `json:"observed"`
-	TotalAlloc uint64 `json:"total_alloc"`
-	Panic    string
-	TimedOut bool
-	Output   string
-	Exit     int
+	Failed     []string `json:"failed"`
+	Covered    []string `json:"covered"`
+	Observed   []string `json:"observed"`
+	TotalAlloc uint64   `json:"total_alloc"`
+	Panic      string
+	TimedOut   bool
+	Output     string
+	Exit       int
 }
 
 func runNative(bin, replayFile string, timeout time.Duration) nativeResult {
@@ -284,10 +308,10 @@ func cmdReplay(args []string) int {
 		return 2
 	}
 	var rp struct {
-		Property string `json:"property"`
-		Harness  string `json:"harness"`
-		Kind     string `json:"kind"`
-		Label    string `json:"label"`
+		Property string   `json:"property"`
+		Harness  string   `json:"harness"`
+		Kind     string   `json:"kind"`
+		Label    string   `json:"label"`
 		Observed []string `json:"observed"`
 	}
 	json.Unmarshal(b, &rp)
